@@ -547,9 +547,8 @@ example : SysC.RunP (SysC.ProbeHyp ⟨SysC.wedgeA.snd_nxt, SysC.wedgeA.conv, 0, 
 
 The history `pre` is arbitrary (`netRun`): it contains the period in which nobody reads at B — B's
 queue fills, it advertises `wnd = 0`, A stops numbering segments (`C03_closed_throttled_no_new_sn`, the
-standstill half) — and any loss of probes and answers.  In the state it leaves the reader is back and
-B's queue is not full, from now on the reader reads whenever there is something to read (`QOk`), the
-links are fair, the writer has stopped.  Then the transfer completes: the window is re-opened by a probe
+standstill half) — and any loss of probes and answers.  In the state it leaves the reader is back: from
+now on it reads whenever there is something to read (`QOk`), the links are fair, the writer has stopped.  Then the transfer completes: the window is re-opened by a probe
 round (`C03_zero_window_probe_bound`), the queued segments are numbered and acknowledged one stage after
 the other (Lemmas/SysDrainFair2.lean).  Hypotheses as in `C02_drain_general_partial` (Props/C02.lean):
 `SysC.FairHyp` in every state of the run — head timers within `Rmax`, a send window at A,
@@ -561,18 +560,15 @@ open KcpVerif.Sys KcpVerif.SysC in
 theorem C03_resume_partial (A B : Kcp) (D t0 : Nat) (ndA ndB : Bool) (hinit : ConsInit A B)
     (hpw : A.probe_wait = 0) (hIA : A.interval.toNat < 2 ^ 29) (pre : List NetEv)
     (hpre : NetNoWrap A.snd_nxt (Sys.init A B D t0 ndA ndB) pre) (Rmax : Nat) (hR : Rmax + A.interval.toNat < 2 ^ 31)
-    (hqB : (netRun (Sys.init A B D t0 ndA ndB) pre).B.rcv_queue.length <
-      (netRun (Sys.init A B D t0 ndA ndB) pre).B.rcv_wnd.toNat)
     (evs : List Ev) (hns : ∀ ev ∈ evs, isSend ev = false)
     (hr : RunP (FairHyp ⟨A.snd_nxt, A.conv, 0, 0, 0⟩ Rmax A.interval.toNat) (netRun (Sys.init A B D t0 ndA ndB) pre) evs)
-    (hnow : (netRun (Sys.init A B D t0 ndA ndB) pre).now + (netRun (Sys.init A B D t0 ndA ndB) pre).A.waitSnd *
+    (hnow : (netRun (Sys.init A B D t0 ndA ndB) pre).now + 1 + (netRun (Sys.init A B D t0 ndA ndB) pre).A.waitSnd *
       (fairStage Rmax A.interval.toNat B.interval.toNat (netRun (Sys.init A B D t0 ndA ndB) pre).D + 2) ≤
       (Sys.run (netRun (Sys.init A B D t0 ndA ndB) pre) evs).now) :
     (Sys.run (netRun (Sys.init A B D t0 ndA ndB) pre) evs).A.waitSnd = 0 := by
   obtain ⟨hi, hpi⟩ := inv_pinv_netRun (by omega) pre _ (inv_init A B D t0 ndA ndB hinit)
     (pinv_init A B D t0 ndA ndB hpw) hpre
-  exact drain_fair_all hIA hR _ _ hi hpi (arrOk_netRun pre _ (arrOk_init A B D t0 ndA ndB)) hqB (Nat.le_refl _)
-    evs hns hr hnow
+  exact drain_fair_any hIA hR hi hpi (arrOk_netRun pre _ (arrOk_init A B D t0 ndA ndB)) evs hns hr hnow
 
 /-! what `C03_resume_partial` does not cover (the full statement stays `C03_resume_full` above): the
 derivation of `TmrOk` from the number of earlier timeouts (the RTO backoff of a segment is not capped in
